@@ -6,19 +6,19 @@ PY = "/venv/bin/python"
 
 CLAIMED = {
  "C06": dict(engine="A-dasksim", ref="DESIGN.md section 4",
-    technique="deterministic simulation: seeded dask task-graph scheduler with fault injection (duplicate execution, evict+recompute, read-only and copied chunk delivery, shared compute, chained operations, line-level interleaving of concurrent task pairs), differential against eager xgcm; violations that need earlier cases of the same process are replayed as a minimal case sequence",
+    technique="deterministic simulation: seeded dask task-graph scheduler with fault injection (duplicate execution, evict+recompute, read-only and copied chunk delivery, shared compute, chained operations, line-level interleaving of concurrent task pairs), differential against eager xgcm, workers under 16 different string-hash seeds (dask-only code iterates sets too); violations that need earlier cases of the same process are replayed as a minimal case sequence",
     text="Seeded exploration: for each generated (grid, operation, chunk layout) the lazy result is built under a monitor that forbids any computation and then computed under several simulated schedules (policy x fault set); every result must equal the in-memory result bit for bit and refusals are allowed only in the exempted inner/outer situation. Sampling, not exhaustive: a clean batch is evidence, not proof.",
     note="Trusted: dask graph construction/optimisation, the canonical-label scheme that makes schedules replayable, exact arithmetic of integer-valued float64 test data. Concurrency is simulated, never real: serial schedules with buffer-delivery faults, plus pairs of tasks interleaved at line granularity inside xgcm's source by a settrace baton (one seed = one interleaving). Values are compared up to 1e-10 relative (chunked reductions re-associate sums), everything else exactly."),
  "C07": dict(engine="A-dasksim+numba-standin", ref="DESIGN.md section 4 and 7 (C07)",
-    technique="deterministic simulation: simulated dask schedules + poisoned kernel output buffers; per-column overlap-weight reference model as oracle",
+    technique="deterministic simulation: simulated dask schedules + poisoned kernel output buffers; per-column overlap-weight reference model as oracle, exact power-of-two scale equivariance of the data",
     text="Seeded exploration of the conservative transform via the kernel and via Grid.transform: chunking/schedule/allocator clauses are decided by simulation (eager vs lazy under simulated schedules, garbage-filled output buffers); per-column conservation, overlap weights, bin merging, sign and bin reversal are checked against an independent reference model on every simulated execution.",
     note="numba is absent: kernels run as CPython under a stand-in for numba.guvectorize (kernel bodies unmodified); compiled-code effects (fastmath, integer overflow) are out of reach. theta values are drawn from a small dyadic lattice so that exact ties with bin edges are frequent."),
  "C08": dict(engine="A-dasksim+numba-standin", ref="DESIGN.md section 4 and 7 (C08)",
-    technique="deterministic simulation: simulated dask schedules + poisoned kernel output buffers; per-column piecewise-linear reference interpolant as oracle",
+    technique="deterministic simulation: simulated dask schedules + poisoned kernel output buffers; per-column piecewise-linear reference interpolant as oracle, exact power-of-two scale equivariance of the data",
     text="Seeded exploration of linear/log transforms via the kernel and via Grid.transform: column independence under every chunking/schedule/fault set is decided by simulation; values, masking, level order, direction handling and naming are checked against an independent segment-search interpolant on every simulated execution.",
     note="numba stand-in as for C07. Tolerance 1e-12 relative for values (np.interp vs the model), exact for NaN placement and names."),
  "C12": dict(engine="B-hashsim", ref="DESIGN.md section 5",
-    technique="deterministic simulation over hash seeds: fresh interpreters per PYTHONHASHSEED (chosen to realise every ordering of the involved name sets) x permutations of the link-table insertion order; all executions of a case must agree",
+    technique="deterministic simulation over hash seeds: fresh interpreters per PYTHONHASHSEED (chosen to realise every ordering of the involved name sets) x permutations of the link-table insertion order (faces, per-face axis entries, keyword mappings); eager and lazy (dask synchronous scheduler) executions; all executions of a case must agree",
     text="Seeded exploration: every case is executed in K fresh interpreters whose string-hash seeds were selected so that together they realise all orderings of the 2- and 3-element name sets involved (and most 4-element ones), and under permuted insertion orders of the face-link table; outcome digests (values, dims, coords, accept/reject) must be identical across all of them.",
     note="Hash-seed control covers sets of str/tuple/frozenset-of-str, which is every set in xgcm; address-hashed objects (ASLR) are not controlled. Exception messages are excluded from the digest (they may legitimately print a set)."),
  "C16": dict(engine="C-history", ref="DESIGN.md section 6.1",
@@ -26,7 +26,7 @@ CLAIMED = {
     text="Seeded exploration of registration histories (constructor entries + up to 4/6 set_metrics calls over a pool of 20 attributable metric variables) with refusal faults; after every step all get_metric reads are checked against a sequential model, and the same flattened registration sequence is re-executed under other batchings and must read identically.",
     note="Reads are attributed through values (each pool variable is a constant prime field). A refused multi-variable call is modelled strictly as one-at-a-time registration (prefix registered, rest untouched)."),
  "C18": dict(engine="C-history", ref="DESIGN.md section 6.2",
-    technique="deterministic simulation: seeded operation histories over shared argument objects with fault injection (ill-posed requests, raising user function, warnings escalated to exceptions, exception injected via sys.settrace at the k-th xgcm source line), workers under 16 different string-hash seeds; oracle = pristine world snapshot + fresh-run outcome",
+    technique="deterministic simulation: seeded operation histories over shared argument objects with fault injection (ill-posed requests, raising user function, warnings escalated to exceptions, exception injected via sys.settrace at the k-th xgcm source line), in-memory and dask-backed (lazy) worlds, workers under 16 different string-hash seeds; oracle = pristine world snapshot + fresh-run outcome",
     text="Seeded exploration of histories of 2-3 (thorough 2-5) public operations that share argument objects; after every step, returned or raised or interrupted at an arbitrary xgcm source line, a deep snapshot of every caller-owned object and of the Grid must equal the pristine snapshot, and the outcome must equal that of the same call issued first on fresh objects.",
     note="Snapshots cover observable state (values, dims, names, attrs, coords, mapping order and value identity, Grid axis settings and registry). transform runs under the numba stand-in. Concurrent callers are out of scope."),
 }
